@@ -10,6 +10,7 @@ import (
 	"sort"
 	"strconv"
 	"strings"
+	"syscall"
 	"testing"
 	"unsafe"
 
@@ -57,6 +58,7 @@ var targets = []*target{
 	{name: "(*T).M7", method: "M7", fam: "S", fn: (*sub.T).M7, mv: func() interface{} { return (&sub.T{A: 1}).M7 }, call: func() int { return (&sub.T{A: 1}).M7(probeArg) }},
 	{name: "G5", fn: G5int64, gen: true, fam: "G", call: func() int { return int(CallG5b(probeArg)) }},
 	{name: "u4", fn: sub.U4, fam: "P", call: func() int { return sub.CallU4(probeArg) }},
+	{name: "Loop20", fn: Loop20, call: func() int { return Loop20(probeArg) }},
 }
 
 type neighbour struct {
@@ -820,6 +822,11 @@ func TestVerifC02Stale(t *testing.T) {
 	defer out.Close()
 	from, _ := strconv.Atoi(os.Getenv("VERIF_FROM"))
 	for _, op := range vh.ReadOps() {
+		if op.Idx >= from && len(op.Toks) == 1 && op.Toks[0] == "c02.plow" {
+			fmt.Fprintf(os.Stderr, "c02 running %d\n", op.Idx)
+			out.Put(op.Idx, "%s", patchLevel())
+			continue
+		}
 		if op.Idx >= from && len(op.Toks) == 1 && op.Toks[0] == "c02.shape" {
 			// two instantiations with the same gc shape: mock one, observe both, Reset, observe both
 			fmt.Fprintf(os.Stderr, "c02 running %d\n", op.Idx)
@@ -881,4 +888,71 @@ func TestVerifC02Stale(t *testing.T) {
 			os.Exit(3)
 		}
 	}
+}
+
+// patchLevel drives internal/patch directly (the layer Model/Patch.lean transcribes) where Go-compiled targets cannot reach:
+// A. synthetic machine code in an anonymous executable page: a function shorter than the 13-byte jump (refused by the size
+//    check, every time it is offered), one whose first byte is the NOP sentinel (refused as already patched), and an ordinary one
+//    next to them (patched: exactly its first 13 bytes change; unpatched: the page is byte-identical again);
+// B. patch.Unpatch of a function that carries no patch while its first callee is mocked: nothing may change.
+func patchLevel() string {
+	region, err := syscall.Mmap(-1, 0, 4096, syscall.PROT_READ|syscall.PROT_WRITE|syscall.PROT_EXEC, syscall.MAP_PRIVATE|syscall.MAP_ANON)
+	if err != nil {
+		return "A:no-exec-memory"
+	}
+	defer syscall.Munmap(region)
+	for i := range region {
+		region[i] = 0xCC
+	}
+	base := uintptr(unsafe.Pointer(&region[0]))
+	put := func(off int, b ...byte) uintptr { copy(region[off:], b); return base + uintptr(off) }
+	tiny := put(0x100, 0xB8, 0x01, 0, 0, 0, 0xC3)        // mov eax,1; ret; 2 bytes of padding: 8 bytes up to the neighbour
+	nb := put(0x108, 0xB8, 0x02, 0, 0, 0, 0xC3)          // mov eax,2; ret; padding up to 0x128
+	put(0x128, 0xB8, 0x03, 0, 0, 0, 0xC3)                // ends the neighbour's padding
+	nop := put(0x200, 0x90, 0xB8, 0x04, 0, 0, 0, 0xC3)   // first byte = goom's sentinel; long enough otherwise
+	put(0x240, 0xB8, 0x05, 0, 0, 0, 0xC3)
+	snap := append([]byte(nil), region...)
+	repl := func() int { return 42 }
+	same := func() string {
+		for i := range region {
+			if region[i] != snap[i] {
+				j := i
+				for j < len(region) && region[j] != snap[j] {
+					j++
+				}
+				return fmt.Sprintf("diff@%#x+%d", i, j-i)
+			}
+		}
+		return "same"
+	}
+	try := func(addr uintptr, n int) string {
+		var r []string
+		for k := 0; k < n; k++ {
+			g, err := patch.Ptr(addr, repl)
+			switch {
+			case err != nil:
+				r = append(r, "refused/"+same())
+			default:
+				g.Apply()
+				d := same()
+				g.Unpatch()
+				r = append(r, "accepted/"+d+"/"+same())
+			}
+		}
+		return strings.Join(r, ",")
+	}
+	a := "A:tiny=" + try(tiny, 3) + " nop=" + try(nop, 2) + " nb=" + try(nb, 2)
+	patch.UnpatchAll()
+	// B
+	h := &hist{b: []*mocker.Builder{mocker.Create()}}
+	origN0 := N0(probeArg)
+	b := vh.Catch(func() string {
+		h.b[0].Func(N0).Apply(K1)
+		before := safeCall(func() int { return N0(probeArg) }, origN0)
+		r := patch.Unpatch(H10) // H10 carries no patch; its first call goes to N0
+		after := safeCall(func() int { return N0(probeArg) }, origN0)
+		h.b[0].Reset()
+		return fmt.Sprintf("n0=%s unpatch(H10)=%v n0=%s reset=%s", before, r, after, safeCall(func() int { return N0(probeArg) }, origN0))
+	})
+	return a + " B:" + b + " end d=" + cleanup(h)
 }
